@@ -1031,11 +1031,27 @@ class EventBus:
                 )
 
         # Execute handlers
-        await self._execute_handlers(event, handlers=applicable_handlers, timeout=timeout)
+        try:
+            await self._execute_handlers(event, handlers=applicable_handlers, timeout=timeout)
+        except asyncio.CancelledError as cancelled:
+            # We are being processed inline by a handler that just got cancelled (e.g. by its timeout). Nobody will come
+            # back to this event: cancel what has not finished and complete it, instead of leaving it half-processed forever
+            for event_result in event.event_results.values():
+                if event_result.status in ('pending', 'started'):
+                    event_result.update(
+                        error=asyncio.CancelledError(f'Cancelled pending handler: processing of {event} was interrupted')
+                    )
+            event.event_cancel_pending_child_processing(cancelled)
+            self._finish_processing_event(event)
+            raise
 
         await self._default_log_handler(event)
         await self._default_wal_handler(event)
 
+        self._finish_processing_event(event)
+
+    def _finish_processing_event(self, event: 'BaseEvent[Any]') -> None:
+        """Mark the event complete if it is, and propagate completion up the parent chain"""
         # Mark event as complete if all handlers are done
         event.event_mark_complete_if_all_handlers_completed()
 
